@@ -13,8 +13,12 @@ def log(*a):
 def _find_factory(binp):
     import subprocess
 
-    def find(features, fam, take, start):
-        argv = [binp, "kind=find", "features=" + ",".join(features), "take=%d" % take, "start=%d" % start, "count=20000"] + ["%s=%s" % (k, v) for k, v in fam.items()]
+    def find(features, fam, take, start, dyn=None):
+        """static structural features, or (dyn=dict(notes=.., dd=.., width=..)) shapes observed in concrete probe runs"""
+        if dyn:
+            argv = [binp, "kind=finddyn", "take=%d" % take, "start=%d" % start, "count=20000"] + ["%s=%s" % (k, v) for k, v in fam.items()] + ["%s=%s" % (k, v) for k, v in dyn.items()]
+        else:
+            argv = [binp, "kind=find", "features=" + ",".join(features), "take=%d" % take, "start=%d" % start, "count=20000"] + ["%s=%s" % (k, v) for k, v in fam.items()]
         out = subprocess.run(argv, stdout=subprocess.PIPE, text=True).stdout.strip()
         return [int(x) for x in out.split(",") if x]
 
